@@ -548,8 +548,12 @@ def gen_mean(g, n_each):
 
 # ------------------------------------------------------------------ parsing
 
+import re as _re
+_HEX16 = _re.compile(r"[0-9a-f]{16}")
+
+
 def is_hex(x):
-    return len(x) == 16 and all(ch in "0123456789abcdef" for ch in x)
+    return _HEX16.fullmatch(x) is not None
 
 
 def parse_cols(out, k, n):
@@ -598,8 +602,24 @@ def jacobi_eigs(A):
     return sorted((A[i][i] for i in range(n)), reverse=True)
 
 
+def _scaled_ints(xs):
+    """finite doubles -> (integers n_i, k) with x_i = n_i / 2**k exactly"""
+    rs = [float(x).as_integer_ratio() for x in xs]
+    k = max([d.bit_length() - 1 for _, d in rs] + [0])
+    return [n << (k - (d.bit_length() - 1)) for n, d in rs], k
+
+
 def outer_exact(w, qs):
-    return [[sum(Fraction(wi) * Fraction(q[a]) * Fraction(q[b]) for wi, q in zip(w, qs)) for b in range(4)] for a in range(4)]
+    """sum_i w_i q_i q_i^T exactly (Fractions), computed in scaled integer arithmetic (long particle sets)"""
+    W, kw = _scaled_ints(w)
+    flat, kq = _scaled_ints([x for q in qs for x in q])
+    Q = [flat[4 * i:4 * i + 4] for i in range(len(qs))]
+    den = 1 << (kw + 2 * kq)
+    M = [[None] * 4 for _ in range(4)]
+    for a in range(4):
+        for b in range(a, 4):
+            M[a][b] = M[b][a] = Fraction(sum(wi * q[a] * q[b] for wi, q in zip(W, Q)), den)
+    return M
 
 
 def vec_dist_up_to_sign(u, v):
@@ -783,7 +803,9 @@ def check_mean(cases, H, Dm, P, stats):
         stats["mean_styles"][c["style"] + ("/" + c["sibling"] if "sibling" in c else "")] = stats["mean_styles"].get(c["style"] + ("/" + c["sibling"] if "sibling" in c else ""), 0) + 1
         if unit_defect(v) > 1e-12:
             P.append(("prop", "mean:not-unit", "mean_quaternion returned %r, squared norm 1%+.3g" % (v, math.fsum(x * x for x in v) - 1.0), idx))
-        M = outer_exact(w, qs)
+        if "_M" not in c:
+            c["_M"] = outer_exact(w, qs)
+        M = c["_M"]
         Mf = [[float(x) for x in row] for row in M]
         Mv = [math.fsum(Mf[a][b] * v[b] for b in range(4)) for a in range(4)]
         lam = math.fsum(v[a] * Mv[a] for a in range(4))
